@@ -216,7 +216,7 @@ static void sc_check(const Json& c, Out& o) {
 }
 static void sc_gen(Ctx& ctx) {
     // every length 1..2000 x every content class x both directions
-    const int reps = ctx.by_tier(6, 60);
+    const int reps = ctx.by_tier(6, 36);
     for (int rep = 0; rep < reps; ++rep)
         for (int n = 1; n <= 2000; ++n)
             for (int cls = 0; cls < K_NCONTENT; ++cls)
@@ -364,7 +364,7 @@ static void mf_gen(Ctx& ctx) {
                                .set("seed", (long long)(code * 7 + L)));
                 }
     // (b) streams of 10^4 samples: every order 3..64 x every content class x zero / chosen history, framing rotating through all modes
-    const int reps = ctx.by_tier(6, 60);
+    const int reps = ctx.by_tier(6, 36);
     for (int rep = 0; rep < reps; ++rep)
         for (int n = 3; n <= 64; ++n)
             for (int cls = 0; cls < K_NCONTENT; ++cls)
